@@ -4,5 +4,5 @@ From Coq Require Import Extraction ExtrOcamlBasic NArith List.
 From PV Require Import Spin.Lang Spin.Reviewed Spin.Sem Spin.RaceSem Spin.Explore Spin.Registry Gen.SpinGen.
 Extraction Language OCaml.
 Extraction "../ocaml/gen/spin_model.ml"
-  reviewed_prog SpinGen.gen_prog minit mstep_ev wb_ok holders explore judge_run
+  reviewed_prog SpinGen.gen_prog minit mstep_ev adv wb_ok holders explore judge_run
   reg_init reg_step.
